@@ -52,7 +52,7 @@ CHECKS.update({
         engine="PySym + DeCy",
         technique="bounded symbolic execution (PySym/z3) of ReadSetReader.read and everything below it - variants.py, vcf.py normalisation, the DeCy translations of _variants.pyx and align.pyx - with symbolic DNA (reference, inserted and substituted bases); the read and its canonical CIGAR are derived from (reference, variants, carried alleles); every path replayed through the real variants.py, the rebuilt compiled _variants/align/core and real pysam.AlignedSegment objects",
         text="Exhaustive within the bounds: reference <= 7 (thorough 10) bases, one or two variants of every kind (SNV, MNP, 1-2 base insertion/deletion, padded records, multi-allelic), clips, =/X, N skips, mate pairs in all orientations, overhang 0-2 (3). Clauses: never the other allele; nothing for non-overlapped variants; allele found with a reference; found without one for SNVs and unshiftable indels.",
-        note="Trusted: duck-typed alignment + in-memory reader (validated by the replay through real AlignedSegments), core model, SymStr, DeCy. Seven genuine defects are recorded as known findings (not repaired: each needs a design decision in allele detection). Outside: default overhang 10, affine/k-mer re-alignment, supplementary alignments, P operator.",
+        note="Trusted: duck-typed alignment + in-memory reader (validated by the replay through real AlignedSegments), core model, SymStr, DeCy. Seven genuine defects were found; four are repaired in /repo, three stay as known findings (--overhang 0 x2, neighbouring carried indel in the re-alignment window: each needs a design decision in allele detection). Outside: default overhang 10, affine/k-mer re-alignment, supplementary alignments, P operator.",
         design_ref="DESIGN.md §4 C06, §9",
     ),
     "C07": dict(
@@ -132,14 +132,14 @@ CHECKS.update({
         engine="PySym",
         technique="bounded symbolic execution (PySym/z3) of both encoders (_set_PS/_set_HP) and both decoders (_extract_GT_PS_phase/_extract_HP_phase, VcfReader, VariantTable.phases_of) through the pysam model incl. htslib's write/read normalisation; re-phasing hygiene for all four old x new tag pairs; phased_blocks_as_reads on symbolic tables; replay on real pysam files",
         text="Bounded as C04; positions up to 2^31-2, HP ids from a small concrete domain (they pass through str/int). The clause 'a phased VCF as only input reproduces every phase set' rests on the DP (C01/C02 lemma) and is covered only up to the pseudo-read construction.",
-        note="Five genuine defects around the HP tag are recorded as known findings (see DESIGN 9.5).",
+        note="Three genuine defects around the HP tag were found and repaired in /repo (see DESIGN 9.5); no open finding.",
         design_ref="DESIGN.md §4 C09, §9",
     ),
     "C10": dict(
         engine="PySym",
         technique="bounded symbolic execution (PySym/z3) of haplotag.py: prepare_haplotag_information, attempt_add_phase_information, ignore_read, linked-read pooling and run_haplotag's main loop under file stand-ins, with symbolic allele qualities; independent score oracle, tie rejection, haplotype-swap symmetry, conservation/order of records; replay on the real module with real pysam.AlignedSegment and the compiled core",
         text="<= 3 (4) variants in <= 2 phase sets, ploidy 2-3, <= 2 linked reads, <= 4 records + unplaced tail, 4 region configurations, --tag-supplementary.",
-        note="Trusted: haplotag_model stand-ins. Two known findings (duplicate output under overlapping --regions, stale tags on the unmapped tail). Outside: BAM/CRAM file I/O, --output-threads.",
+        note="Trusted: haplotag_model stand-ins. Two genuine defects (duplicate output for alignments overlapping two --regions, stale tags on the unmapped tail) were found and repaired in /repo. Outside: BAM/CRAM file I/O, --output-threads.",
         design_ref="DESIGN.md §4 C10, §9",
     ),
     "C13": dict(
@@ -153,7 +153,7 @@ CHECKS.update({
         engine="PySym",
         technique="bounded symbolic execution (PySym/z3) of the chain haplotag (tags) -> haplotagphase (compute_votes, best_candidate, consensus, run_haplotagphase bookkeeping); replay through the real run_haplotagphase with real VcfReader/PhasedVcfWriter/pysam on files written from the witness",
         text="<= 3 (4) variants in <= 2 phase sets, <= 2 (3) error-free reads, partially unphased second input; sub-check chain_multiallelic mixes 1-ALT and 2-ALT records (all six ordered het genotypes over alleles 0,1,2) through the allele_to_id / id_to_allele path.",
-        note="Trusted: PhasedInputReader stand-in. One known finding (already phased variants without votes are un-phased).",
+        note="Trusted: PhasedInputReader stand-in. One genuine defect (already phased variants without votes were un-phased) was found and repaired in /repo.",
         design_ref="DESIGN.md §4 C17, §9",
     ),
 })
